@@ -15,7 +15,7 @@ func init() {
 		ID: "C04",
 		Explanation: "Frame argument for persistence: if no Stream/Set/StreamSet operation contains an instruction that can write memory reachable from its receiver or arguments, and every collection it returns is either the receiver/argument object itself or freshly allocated storage, then by induction over any program of operations every previously obtained collection is unchanged. " +
 			"Decided by an interprocedural write-effect and freshness analysis on SSA (stores through parameter-rooted addresses, map updates, delete, copy, in-place sorts, and append into a slice that may have spare capacity count as writes; x[:i:i] and fresh slices are safe; interface invokes joined over all repo implementers; summaries iterated to a fixpoint). " +
-			"The documented in-place mutators are a table with extra obligations (interface{} Remove returns the receiver itself; SortByIndex restores the receiver from a clone). ToArray/Keys/Values/Clone must be fresh. SimpleHTTP must update its interceptor list only by assigning results of persistent operations.",
+			"The documented in-place mutators are a table with extra obligations (interface{} Remove returns the receiver itself; SortByIndex restores the receiver from a clone). ToArray/Keys/Values/Clone must be fresh. SimpleHTTP must update its interceptor list only by assigning results of persistent operations. (R4) no operation assigns into a map that may be nil (nil-map bit in the effect summaries).",
 		Trusted: append([]string{"user callbacks passed to Map/Filter/… do not themselves mutate the collection being processed", "non-repo callees other than sort.* / copy / append / delete do not write through their slice or map arguments (listed in evidence)"}, commonTrusted...),
 		Run:     runC04,
 	})
